@@ -537,6 +537,9 @@ func runNumbers(c NCase, r *runlog.R) error {
 	}
 	for _, it := range items {
 		nv, key := it.nv, it.key
+		if nv.Place == 5 && c.Opts&1 == 0 {
+			nv.Place = 1 // without PathSep the setting is written nested
+		}
 		in := infoOf(nv.V)
 		setting := fmt.Sprintf("%s = %s (%s)", key, canon.Show(nv.V.Go()), nv.placeName())
 		if it.ref {
@@ -657,7 +660,7 @@ func runNumbers(c NCase, r *runlog.R) error {
 		if in.isNum {
 			ym, _ := raw[0].(map[interface{}]interface{})
 			yv := ym[key]
-			if nv.Place == 5 && c.Opts&1 != 0 {
+			if nv.Place == 5 {
 				yv = ym[key+".v"]
 			}
 			switch leafOf(yv).(type) {
@@ -863,4 +866,4 @@ var subNumbers = runlog.Register(&runlog.Sub[NCase]{
 	Run:  runNumbers,
 })
 
-func TestTypedNumbers(t *testing.T) { subNumbers.Check(t, 6000, 400000) }
+func TestTypedNumbers(t *testing.T) { subNumbers.Check(t, 5000, 400000) }
